@@ -1104,6 +1104,15 @@ func (c *Conn) handle(f *wire.Frame) bool {
 				if c.hostileInternal("use", f, v, func() { c.replyMsg(v, f.Stream, &message.SetKeyspaceResult{Keyspace: ks}, nil) }) {
 					return true
 				}
+				if strings.HasPrefix(ks, "refuse_") {
+					// convention: USE of refuse_<kind>_... is refused with that error (a node that is overloaded, still
+					// bootstrapping, or does not let this user in)
+					kind := strings.SplitN(ks, "_", 3)[1]
+					if m := ErrorFor(Outcome{Kind: kind}, fmt.Sprintf("Keyspace '%s' does not exist (USE refused with %s)", ks, kind), v, nil); m != nil {
+						c.replyMsg(v, f.Stream, m, nil)
+						return true
+					}
+				}
 				cl.mu.Lock()
 				ok := cl.Keyspaces[ks]
 				if ok {
